@@ -180,7 +180,7 @@ func afterCrash(cc *crashCase, dir, name string, res *ChildResult) (devs []Devia
 		for _, k := range model.Keys(ci) {
 			ki := model.Info(ci, k)
 			want := ki.St
-			obs, cdevs := Observe(w.Coll(0, ci), k, append(ki.XNameList(), "_sync", "_vv", "_mou", "user", "u2"))
+			obs, cdevs := Observe(w.Coll(0, ci), k, append(ki.XNameList(), "_sync", "_vv", "_mou", "_sy", "user", "u2"))
 			for _, d := range cdevs {
 				d.Props = c10
 				d.Msg = "after reopen: " + d.Msg
@@ -318,7 +318,15 @@ func validAfter(w *World, op Op, prior, obs St) (bool, string) {
 	}
 	res.Cas = obs.Cas
 	var why []string
-	for _, a := range ExpectAll(eop, prior, res) {
+	alts := ExpectAll(eop, prior, res)
+	if eop.CbExpOnce {
+		// how often the interrupted call had invoked its callback is unknown: both the first
+		// attempt's result (with the callback's expiry) and a retried attempt's (without) are complete
+		res2 := res
+		res2.Cb = []CbObs{{}, {}}
+		alts = append(alts, ExpectAll(eop, prior, res2)...)
+	}
+	for _, a := range alts {
 		if a.Same {
 			continue
 		}
@@ -546,7 +554,14 @@ func runCrashExpCase(c crashExpCase) ([]Deviation, error) {
 	cfg := Config{Disk: true, Handles: 1, Colls: allCollNames[:1]}
 	steps := []Op{{K: "Set", Key: "keep", Body: []byte(`{"k":1}`)}}
 	exp := ExpSpec{Kind: "abs", V: uint32(c.TTL)}
+	meta := func(key, body string, cas string, e ExpSpec) Op {
+		return Op{K: "SetWithMeta", Key: key, Body: []byte(body), JSON: true, MetaCas: "above", Cas: CasSpec{Kind: cas}, Exp: e}
+	}
 	switch c.Via {
+	case "SetWithMeta":
+		// a bucket that is written through *WithMeta only (as a replication target is): no call of
+		// the regular write API ever assigns a CAS of the bucket's own
+		steps = []Op{meta("keep", `{"k":1}`, "zero", ExpSpec{Kind: "zero"}), meta("soon", `{"s":1}`, "zero", exp)}
 	case "Set":
 		steps = append(steps, Op{K: "Set", Key: "soon", Body: []byte(`{"s":1}`), Exp: exp})
 	case "Touch":
@@ -558,10 +573,18 @@ func runCrashExpCase(c crashExpCase) ([]Deviation, error) {
 	}
 	expStep := len(steps) - 1
 	for i := 0; i < c.Extra; i++ {
-		steps = append(steps, Op{K: "Set", Key: "keep", Body: []byte(fmt.Sprintf(`{"k":%d}`, i+2))})
+		if c.Via == "SetWithMeta" {
+			steps = append(steps, meta("keep", fmt.Sprintf(`{"k":%d}`, i+2), "current", ExpSpec{Kind: "zero"}))
+		} else {
+			steps = append(steps, Op{K: "Set", Key: "keep", Body: []byte(fmt.Sprintf(`{"k":%d}`, i+2))})
+		}
 	}
 	// the trailing step is the one the kill interrupts
-	steps = append(steps, Op{K: "Set", Key: "last", Body: []byte(`{"l":1}`)})
+	if c.Via == "SetWithMeta" {
+		steps = append(steps, meta("last", `{"l":1}`, "zero", ExpSpec{Kind: "zero"}))
+	} else {
+		steps = append(steps, Op{K: "Set", Key: "last", Body: []byte(`{"l":1}`)})
+	}
 	res, err := RunChild(&ChildPlan{Dir: dir, Name: name, Config: cfg, Steps: steps, Crash: &c.Crash, NoClose: true}, 60*time.Second)
 	if err != nil {
 		return nil, err
@@ -622,7 +645,7 @@ func runCrashExpCase(c crashExpCase) ([]Deviation, error) {
 
 func TestC10Expiry(t *testing.T) {
 	st := statsFor("C10", "TestC10Expiry")
-	st.Rule = "a child process sets a 2-4 s expiry through Set / Add / Touch / WriteWithXattrs, acknowledges it and 0-3 further writes, and is SIGKILLed at a generated hook occurrence of a later write; this process reopens the bucket and only reads: the expiry value must be the acknowledged one, the document must stay until its second and be gone within 5 s after it (in 40% of the cases the bucket is reopened only after the expiry time has passed: gone within 5 s after the open); non-trivial = all of them (the expiry write was acknowledged before the kill); distinct by case parameters"
+	st.Rule = "a child process sets a 2-4 s expiry through Set / Add / Touch / WriteWithXattrs / SetWithMeta (the latter in a bucket written through *WithMeta only), acknowledges it and 0-3 further writes, and is SIGKILLed at a generated hook occurrence of a later write; this process reopens the bucket and only reads: the expiry value must be the acknowledged one, the document must stay until its second and be gone within 5 s after it (in 40% of the cases the bucket is reopened only after the expiry time has passed: gone within 5 s after the open); non-trivial = all of them (the expiry write was acknowledged before the kill); distinct by case parameters"
 	if replayMode() {
 		rp := loadReplay("TestC10Expiry")
 		if rp == nil {
@@ -647,12 +670,16 @@ func TestC10Expiry(t *testing.T) {
 		n := 8
 		cases := make([]crashExpCase, n)
 		for i := range cases {
-			c := crashExpCase{TTL: rapid.IntRange(2, 4).Draw(rt, "ttl"), Via: pick(rt, []string{"Set", "Touch", "WriteWithXattrs", "Add"}, "via"), Extra: rapid.IntRange(0, 3).Draw(rt, "extra"), Overdue: chance(rt, 40, "overdue")}
+			c := crashExpCase{TTL: rapid.IntRange(2, 4).Draw(rt, "ttl"), Via: pick(rt, []string{"Set", "Touch", "WriteWithXattrs", "Add", "SetWithMeta"}, "via"), Extra: rapid.IntRange(0, 3).Draw(rt, "extra"), Overdue: chance(rt, 40, "overdue")}
 			c.Crash = CrashPoint{Hook: pick(rt, []string{"tx.begin", "cas.afterDocWrite", "tx.beforeCommit", "tx.afterCommit", "cas.beforePost"}, "hook")}
 			// occurrences: one per write for every hook used here; the kill hits the trailing write or one of the extras
 			writes := 2 + c.Extra
 			if c.Via == "Touch" {
 				writes++
+			}
+			if c.Via == "SetWithMeta" {
+				// (*WithMeta writes pass the transaction hooks only)
+				c.Crash.Hook = pick(rt, []string{"tx.begin", "tx.beforeCommit", "tx.afterCommit"}, "hook.meta")
 			}
 			c.Crash.Nth = writes + 1 - rapid.IntRange(0, c.Extra).Draw(rt, "back")
 			if c.Via == "Touch" && c.Crash.Hook == "cas.beforePost" {
